@@ -37,7 +37,7 @@ def run_property(pid, cfg, tier, known):
         if c is None:
             out["error"] = f"property {pid} lists {q} but no contract is registered for it"
             return out
-        fi = eng.repo.funcs.get(q)
+        fi = eng.repo.funcs.get(q.split('#')[0])
         if fi is None:
             eng.problems.append((q + "/function", "contracted function no longer exists in the repository"))
             continue
@@ -85,11 +85,12 @@ def run_property(pid, cfg, tier, known):
         v = vs[0]
         concrete, cnote = None, ""
         fq = n.split("/")[0]
-        if fq in eng.repo.funcs and fq in eng.contracts and v.ob.entry[0] is not None:
+        fbase = fq.split("#")[0]
+        if fbase in eng.repo.funcs and fq in eng.contracts and v.ob.entry[0] is not None:
             from .concretize import concretize
             for cand in vs[:3]:
                 try:
-                    concrete, cnote = concretize(eng, cand.ob, eng.repo.funcs[fq], eng.contracts[fq])
+                    concrete, cnote = concretize(eng, cand.ob, eng.repo.funcs[fbase], eng.contracts[fq])
                 except Exception as e:
                     concrete, cnote = None, f"concretisation failed: {type(e).__name__}: {e}"
                 if concrete:
@@ -98,7 +99,7 @@ def run_property(pid, cfg, tier, known):
         out["failed"].append({
             "concretisation": cnote,
             "kind": "obligation", "property": pid, "name": n, "obligation_kind": v.kind, "clause": v.note,
-            "function": n.split("/")[0], "source_sha": eng.repo.funcs[n.split("/")[0]].sha if n.split("/")[0] in eng.repo.funcs else None,
+            "function": fq, "source_sha": eng.repo.funcs[fbase].sha if fbase in eng.repo.funcs else None,
             "solver": v.solver, "solver_output": "sat", "path": " ".join(v.trace), "model": v.model,
             "failing_paths": len(vs), "concrete": concrete, "replayed": False,
             "note": "counter-model of the verification condition; concrete inputs could not be reconstructed automatically"})
